@@ -228,6 +228,9 @@ func tr(e ast.Expr, ps []param) (string, error) {
 		case token.NEQ:
 			return "(" + a + " != " + b + ")", nil
 		case token.ADD:
+			if stringy(x) {
+				return "(" + a + " ++ " + b + ")", nil
+			}
 			return "(" + a + " + " + b + ")", nil
 		case token.SUB:
 			return "(" + a + " - " + b + ")", nil
@@ -254,6 +257,19 @@ func tr(e ast.Expr, ps []param) (string, error) {
 		}
 	}
 	return "", untranslatable{txt}
+}
+
+// a `+` with a string literal somewhere among its operands is a concatenation
+func stringy(e ast.Expr) bool {
+	switch x := e.(type) {
+	case *ast.BasicLit:
+		return x.Kind == token.STRING
+	case *ast.ParenExpr:
+		return stringy(x.X)
+	case *ast.BinaryExpr:
+		return x.Op == token.ADD && (stringy(x.X) || stringy(x.Y))
+	}
+	return false
 }
 
 // collect conditions of a function in source order
@@ -527,6 +543,105 @@ func emit(g group) (string, []string) {
 				continue
 			}
 			fmt.Fprintf(&b, "/-- %s: %s — does the body of `if %s` end in a bare return? %s -/\ndef %s : Bool := %v\n", f.File, f.Func, want, f.Doc, f.Name, val)
+		case "unreset":
+			// List String: package-level variables of the file that none of the functions `Func` (comma separated) assigns at its top level
+			assigned := map[string]bool{}
+			okf := true
+			for _, fn := range strings.Split(f.Func, ",") {
+				fd := findFunc(af, fn)
+				if fd == nil {
+					fail("function " + fn + " not found")
+					okf = false
+					break
+				}
+				for _, st := range fd.Body.List {
+					if as, ok := st.(*ast.AssignStmt); ok {
+						for _, l := range as.Lhs {
+							assigned[show(l)] = true
+						}
+					}
+				}
+			}
+			if !okf {
+				continue
+			}
+			var un []string
+			for _, d := range af.Decls {
+				gd, ok := d.(*ast.GenDecl)
+				if !ok || gd.Tok != token.VAR {
+					continue
+				}
+				for _, sp := range gd.Specs {
+					for _, n := range sp.(*ast.ValueSpec).Names {
+						if !assigned[n.Name] {
+							un = append(un, leanStr(n.Name))
+						}
+					}
+				}
+			}
+			fmt.Fprintf(&b, "/-- %s: package-level variables that none of `%s` assigns at its top level %s -/\ndef %s : List String := [%s]\n", f.File, f.Func, f.Doc, f.Name, strings.Join(un, ", "))
+		case "callsfn":
+			// Nat: how many statements (anywhere in the body) call the function `Ident`, and does the first come before the call of `Sel` (if given)?
+			fd := findFunc(af, f.Func)
+			if fd == nil {
+				fail("function not found")
+				continue
+			}
+			first, other := -1, -1
+			idx := 0
+			ast.Inspect(fd.Body, func(n ast.Node) bool {
+				if c, ok := n.(*ast.CallExpr); ok {
+					idx++
+					if show(c.Fun) == f.Ident && first < 0 {
+						first = idx
+					}
+					if f.Sel != "" && show(c.Fun) == f.Sel && other < 0 {
+						other = idx
+					}
+				}
+				return true
+			})
+			val := first >= 0 && (f.Sel == "" || (other >= 0 && first < other))
+			fmt.Fprintf(&b, "/-- %s: does `%s` call `%s`%s? %s -/\ndef %s : Bool := %v\n", f.File, f.Func, f.Ident, map[bool]string{true: " before its first call of `" + f.Sel + "`", false: ""}[f.Sel != ""], f.Doc, f.Name, val)
+		case "ifchain":
+			// List String: the printed conditions of the if / else-if chain that starts with the condition `Ident`
+			fd := findFunc(af, f.Func)
+			if fd == nil {
+				fail("function not found")
+				continue
+			}
+			var chain []string
+			ast.Inspect(fd.Body, func(n ast.Node) bool {
+				if x, ok := n.(*ast.IfStmt); ok && chain == nil && show(x.Cond) == f.Ident {
+					for cur := x; cur != nil; {
+						chain = append(chain, leanStr(show(cur.Cond)))
+						next, _ := cur.Else.(*ast.IfStmt)
+						cur = next
+					}
+					return false
+				}
+				return true
+			})
+			if chain == nil {
+				fail("if with condition `" + f.Ident + "` not found")
+				continue
+			}
+			fmt.Fprintf(&b, "/-- %s: %s — conditions of the if/else-if chain, in order %s -/\ndef %s : List String := [%s]\n", f.File, f.Func, f.Doc, f.Name, strings.Join(chain, ", "))
+		case "hasif":
+			// Bool: does the function contain an `if` with exactly this printed condition?
+			fd := findFunc(af, f.Func)
+			if fd == nil {
+				fail("function not found")
+				continue
+			}
+			found := false
+			ast.Inspect(fd.Body, func(n ast.Node) bool {
+				if x, ok := n.(*ast.IfStmt); ok && show(x.Cond) == f.Ident {
+					found = true
+				}
+				return true
+			})
+			fmt.Fprintf(&b, "/-- %s: does `%s` contain `if %s`? %s -/\ndef %s : Bool := %v\n", f.File, f.Func, strings.ReplaceAll(f.Ident, "-/", "- /"), f.Doc, f.Name, found)
 		case "resets":
 			fd := findFunc(af, f.Func)
 			if fd == nil {
